@@ -162,4 +162,65 @@ theorem C03_except_backends_counterexample :
     validReady .select s [(0, 4)] = true ∧ cbsWhere (pass s [(0, 4)]) (fun _ => true) = [0] ∧
     reportedEpollAF s 0 = 0 ∧ validReady .epoll s [(0, 4)] = true := by decide
 
+/-- a whole turn with the snapshot `wait_serial_ = fd_data_serial_` taken where it is used — AFTER
+`handleExpiredTimers()` — instead of right after the wait (seeded/C03-6): a record created by a timer
+callback of the same turn passes for one that existed when the kernel reported -/
+def loopPassLate (s : State) (tms : List (List Act)) (ready : List (Nat × Nat)) (nx : List (List Act)) : State :=
+  let s1 := runScripts s tms
+  let w : Wait := { serial := s1.serial, gen := s.gen, ready := ready }
+  runScripts (ready.foldl (dispatchFd w) s1) nx
+
+/-- event 0 enabled for reading on descriptor 0, which is readable; event 1 is a spare object -/
+def timerReuse : State :=
+  runSteps [.newEv [], .newEv [], .api (.init 0 0 1 false), .api (.enable 0), .api (.setR 0 true)]
+
+/-- the script of the timer that is due in the same turn: destroy the last event of descriptor 0, close
+the descriptor, open a new one under the same number and enable a fresh event on it -/
+def reuseScript : List Act := [.destroy 0, .close 0, .init 1 0 1 false, .enable 1]
+
+/-- the late snapshot delivers the readiness of the old file to the event of the new one (which is not
+readable); the code as it is delivers nothing; the close contract is kept in both runs -/
+theorem C03_late_snapshot_counterexample :
+    validReady .epoll timerReuse [(0, 1)] = true ∧
+    cbsWhere (loopPassLate timerReuse [reuseScript] [(0, 1)] []) (fun c => !c.instOk) = [1] ∧
+    (loopPassLate timerReuse [reuseScript] [(0, 1)] []).breach = false ∧
+    actualMask (loopPassLate timerReuse [reuseScript] [(0, 1)] []) 0 &&& 1 = 0 ∧
+    cbsWhere (loopPass timerReuse [reuseScript] [(0, 1)] []) (fun _ => true) = [] := by decide
+
+/-! ### a failed wait (select): `errno` was read after the timer callbacks had run -/
+
+inductive WaitErr where
+  | eintr | ebadf | other
+deriving DecidableEq, Repr
+
+/-- script actions that end in a failing system call in the harness and in any real callback of that kind:
+draining a non-blocking socket reads until EAGAIN, filling it writes until EAGAIN -/
+def clobbers : Act → Bool
+  | .setR _ false => true
+  | .setW _ false => true
+  | _ => false
+
+/-- what `SelectLoop::runLoop` does when `select` returned -1 with `e` (patch 08: `e` is saved right after
+the call): EBADF → `removeInvalidFds`, EINTR → nothing, anything else → `break`, i.e. the loop TERMINATES
+(`none`).  The timer callbacks run in between in every case. -/
+def selectFailed (s : State) (e : WaitErr) (tms : List (List Act)) (fds : List Nat) (nx : List (List Act)) : Option State :=
+  match e with
+  | .ebadf => some (loopBadf s tms fds nx)
+  | .eintr => some (loopPass s tms [] nx)
+  | .other => none
+
+/-- as found: `errno` itself is inspected after `handleExpiredTimers()` -/
+def selectFailedAF (s : State) (e : WaitErr) (tms : List (List Act)) (fds : List Nat) (nx : List (List Act)) : Option State :=
+  selectFailed s (if tms.any (·.any clobbers) then .other else e) tms fds nx
+
+/-- an interrupted wait, or one that found a closed descriptor, with a timer due whose callback drains a
+socket: the loop as found terminates; the repaired loop goes on (and disables the events of the closed
+descriptor) -/
+theorem C03_select_errno_counterexample :
+    selectFailedAF timerReuse .eintr [[.setR 0 false]] [] [] = none ∧
+    (selectFailed timerReuse .eintr [[.setR 0 false]] [] []).isSome = true ∧
+    selectFailedAF threeOnClosed .ebadf [[.setR 1 false]] [0] [] = none ∧
+    (selectFailed threeOnClosed .ebadf [[.setR 1 false]] [0] []).map (fun s => badfTrigger s [0]) = some false := by
+  decide
+
 end Tbox.C03
